@@ -186,6 +186,12 @@ WITNESSES = [
     ["odict", [[["str", "b"], ["int", 1]], [["str", "a"], ["int", 2]]]],
     ["ndarray", ">f8", [2, 3], "F", 3, True],
     ["generator", "Philox", 3, 2],
+    # arrays above a megabyte, in both memory layouts and next to a small one (size-dependent code paths)
+    ["list", [["ndarray", "<f8", [400, 420], "F", 4, True], ["ndarray", "<f8", [400, 420], "C", 4, True], ["ndarray", "<i4", [300000], "C", 5, False],
+              ["ndarray", ">f8", [2, 70000], "F", 6, False], ["ref", 0]]],
+    ["dict", [[["str", "big"], ["ndarray", "<c16", [300, 250], "F", 7, False]], [["str", "m"], ["masked", ["ndarray", "<f8", [200000], "C", 1, False], 2]]]],
+    ["generator", "PCG64", 5, 1, 3],
+    ["sparse", "csr", [3, 4], 1, "noncanonical"],
 ]
 
 
